@@ -55,6 +55,10 @@ def wrapped_twice(a):
     return a
 
 
+class readonly(property):  # noqa: N801
+    pass
+
+
 class K:
     def method(self, a, b=None):
         return a
@@ -69,6 +73,11 @@ class K:
 
     @property
     def prop(self):
+        return 1
+
+    @readonly
+    def ro_prop(self):
+        """a getter under a SUBCLASS of property (abc.abstractproperty, a project's own `readonly`)"""
         return 1
 
     @deco
@@ -185,7 +194,7 @@ FUNCS = {
     "lookup": lookup, "cached": cached.__wrapped__, "counted": counted.__wrapped__,
     "plain": plain, "kwonly": kwonly, "posonly": posonly, "gen": gen, "gen_none": gen_none, "coro": coro,
     "wrapped": wrapped.__wrapped__, "wrapped_twice": wrapped_twice.__wrapped__.__wrapped__,
-    "K.method": K.method, "K.cmeth": K.cmeth.__func__, "K.smeth": K.smeth, "K.prop": K.__dict__["prop"].fget,
+    "K.method": K.method, "K.cmeth": K.cmeth.__func__, "K.smeth": K.smeth, "K.prop": K.__dict__["prop"].fget, "K.ro_prop": K.__dict__["ro_prop"].fget,
     "K.wrapped_method": K.wrapped_method.__wrapped__,
     "K.deco_cmeth": K.deco_cmeth.__func__.__wrapped__, "K.deco_smeth": K.deco_smeth.__wrapped__, "K.gen_method": K.gen_method, "K.coro_method": K.coro_method,
     "K.Inner.inner_method": K.Inner.inner_method, "K.Inner.inner_cmeth": K.Inner.inner_cmeth.__func__,
